@@ -43,6 +43,29 @@ theorem accrue_totals {b b' : Bank} {ir : Interest.IrCalc} {now : Int} (h : accr
         have := applyFees_totals h
         exact this
 
+/-- … nor the two limits -/
+theorem accrue_limits {b b' : Bank} {ir : Interest.IrCalc} {now : Int} (h : accrueInterest b ir now = .ok b') :
+    b'.depositLimit = b.depositLimit ∧ b'.borrowLimit = b.borrowLimit := by
+  unfold accrueInterest at h
+  dsimp only at h
+  split at h
+  · cases h
+  · split at h
+    · injection h with h; subst h; exact ⟨rfl, rfl⟩
+    · obtain ⟨ta, _, h⟩ := Res.bind_ok h
+      obtain ⟨tl, _, h⟩ := Res.bind_ok h
+      split at h
+      · injection h with h; subst h; exact ⟨rfl, rfl⟩
+      · unfold accrueCore at h
+        obtain ⟨ch, _, h⟩ := Res.bind_ok h
+        obtain ⟨d, _, h⟩ := Res.bind_ok h
+        obtain ⟨acc, _, h⟩ := Res.bind_ok h
+        unfold applyFees at h
+        obtain ⟨g, _, h⟩ := Res.bind_ok h
+        obtain ⟨i, _, h⟩ := Res.bind_ok h
+        obtain ⟨p, _, h⟩ := Res.bind_ok h
+        injection h with h; subst h; exact ⟨rfl, rfl⟩
+
 /-- writing the touched slot back and sorting: the touched bank's sums move by exactly the slot's change, every other
     bank's sums stay -/
 theorem write_pos {c : Ctx} {l : List Slot} {i : Nat} {s : Slot} {x' : Balance} (hs : l[i]? = some s)
